@@ -429,27 +429,61 @@ func c42Gen(rng *vrng, shape int) (trees []*c42Tree, roots, seen0, dat0 []uint64
 }
 
 
-// c42CheckCLI: whole-program scenario for the checker's use of StreamTrees.  A scratch
-// repository gets a crafted snapshot whose root tree has a directory node pointing at a tree
-// blob that is stored under its true SHA-256 but is (variant "mid") valid JSON up to a node
-// with a wrong-typed field, (variant "start") undecodable from the first token, or (variant
-// "ok") healthy.  Then the real CLI (`this binary` without RESTIC_VERIF, i.e. restic's main)
-// runs `check`.  A reachable unreadable tree must be REPORTED (exit code 1), never crash.
-func c42CheckCLI(c *vctx, variant string) (exit int, panicked bool, detail string, err error) {
-	e := newVenv(c, "checkcli-"+variant)
+// Whole-program scenarios for the consumers of the tree node iterator.  A scratch repository
+// gets two crafted snapshots whose root tree has a directory node "d" pointing at a tree blob
+// stored under its true SHA-256: in snapshot B the blob is broken (variant "mid": valid JSON up
+// to a node with a wrong-typed field; variant "start": undecodable from the first token), in
+// snapshot G it is healthy.  Then the real CLI (this binary without RESTIC_VERIF, i.e. restic's
+// main) runs one command per probe.  A reachable unreadable tree must be handled: commands that
+// need the whole tree must fail with an error (exit code != 0), no command may crash.
+type c42Probe struct {
+	name     string
+	args     []string // "@B", "@G" = snapshot ids, "@T" = scratch target dir, "@R2" = second repository, "@SRC" = dir to back up
+	mustFail bool
+	cwd      string
+}
+
+type c42Scratch struct {
+	e      *venv
+	snapB  string
+	snapG  string
+	target string
+	repo2  string
+	src    string
+}
+
+func c42Craft(c *vctx, variant string) (*c42Scratch, error) {
+	e := newVenv(c, "cli-"+variant)
 	if _, se, err := e.cli("init"); err != nil {
-		return 0, false, "", fmt.Errorf("init: %v %s", err, se)
+		return nil, fmt.Errorf("init: %v %s", err, se)
 	}
-	var sub []byte
+	// canonical serialisation (rewrite / repair refuse trees they cannot re-encode identically)
+	tb := data.NewTreeJSONBuilder()
+	for _, n := range []string{"a", "b", "c"} {
+		if err := tb.AddNode(&data.Node{Name: n, Type: data.NodeTypeFile, Mode: 0o644, ModTime: time.Unix(1700000000, 0), AccessTime: time.Unix(1700000000, 0), ChangeTime: time.Unix(1700000000, 0), Content: restic.IDs{}}); err != nil {
+			return nil, err
+		}
+	}
+	good, _ := tb.Finalize()
+	var bad []byte
 	switch variant {
 	case "mid":
-		sub = []byte(`{"nodes":[{"name":"a","type":"file","mode":420,"content":[]},{"name":5,"type":"file"},{"name":"c","type":"file","content":[]}]}` + "\n")
+		bad = bytes.Replace(good, []byte(`"name":"b"`), []byte(`"name":5`), 1)
+		if bytes.Equal(bad, good) {
+			return nil, fmt.Errorf("c42: could not craft the broken tree")
+		}
 	case "start":
-		sub = []byte(`{"nodez": 1`)
+		bad = []byte(`{"nodez": 1`)
 	default:
-		sub = []byte(`{"nodes":[{"name":"a","type":"file","mode":420,"content":[]}]}` + "\n")
+		bad = good
 	}
-	_, _, err = e.run(func(ctx context.Context, gopts global.Options) error {
+	sc := &c42Scratch{e: e, target: e.base + "/target", repo2: e.base + "/repo2", src: e.base + "/src"}
+	_ = os.MkdirAll(sc.src+"/d", 0o755)
+	for _, n := range []string{"a", "b", "c"} {
+		_ = os.WriteFile(sc.src+"/d/"+n, nil, 0o644)
+	}
+	_ = os.WriteFile(sc.src+"/f", nil, 0o644)
+	_, _, err := e.run(func(ctx context.Context, gopts global.Options) error {
 		printer := progress.NewTerminalPrinter(false, 0, gopts.Term)
 		repo, err := global.OpenRepository(ctx, gopts, printer)
 		if err != nil {
@@ -458,67 +492,165 @@ func c42CheckCLI(c *vctx, variant string) (exit int, panicked bool, detail strin
 		if err := repo.LoadIndex(ctx, printer); err != nil {
 			return err
 		}
-		var root restic.ID
+		var roots [2]restic.ID
 		err = repo.WithBlobUploader(ctx, func(ctx context.Context, up restic.BlobSaverWithAsync) error {
-			subID, _, _, err := up.SaveBlob(ctx, restic.TreeBlob, sub, restic.ID{}, false)
-			if err != nil {
-				return err
+			for k, sub := range [][]byte{bad, good} {
+				subID, _, _, err := up.SaveBlob(ctx, restic.TreeBlob, sub, restic.ID{}, false)
+				if err != nil {
+					return err
+				}
+				tw := data.NewTreeWriter(up)
+				if err := tw.AddNode(&data.Node{Name: "d", Type: data.NodeTypeDir, Mode: os.ModeDir | 0o755, Subtree: &subID}); err != nil {
+					return err
+				}
+				if err := tw.AddNode(&data.Node{Name: "f", Type: data.NodeTypeFile, Mode: 0o644, Content: restic.IDs{}}); err != nil {
+					return err
+				}
+				if roots[k], err = tw.Finalize(ctx); err != nil {
+					return err
+				}
 			}
-			tw := data.NewTreeWriter(up)
-			if err := tw.AddNode(&data.Node{Name: "d", Type: data.NodeTypeDir, Mode: os.ModeDir | 0o755, Subtree: &subID}); err != nil {
-				return err
-			}
-			if err := tw.AddNode(&data.Node{Name: "f", Type: data.NodeTypeFile, Mode: 0o644, Content: restic.IDs{}}); err != nil {
-				return err
-			}
-			root, err = tw.Finalize(ctx)
-			return err
+			return nil
 		})
 		if err != nil {
 			return err
 		}
-		sn, err := data.NewSnapshot([]string{"/crafted"}, nil, "verif", time.Unix(1700000000, 0))
-		if err != nil {
-			return err
+		for k := range roots {
+			sn, err := data.NewSnapshot([]string{"/crafted"}, nil, "verif", time.Unix(int64(1700000000+k), 0))
+			if err != nil {
+				return err
+			}
+			sn.Tree = &roots[k]
+			id, err := data.SaveSnapshot(ctx, repo, sn)
+			if err != nil {
+				return err
+			}
+			if k == 0 {
+				sc.snapB = id.String()
+			} else {
+				sc.snapG = id.String()
+			}
 		}
-		sn.Tree = &root
-		_, err = data.SaveSnapshot(ctx, repo, sn)
-		return err
+		return nil
 	})
 	if err != nil {
-		return 0, false, "", fmt.Errorf("craft: %v", err)
+		return nil, fmt.Errorf("craft: %v", err)
 	}
+	return sc, nil
+}
+
+func (sc *c42Scratch) restic(cwd string, extraEnv []string, args ...string) (exit int, panicked bool, detail string, err error) {
 	self, err := os.Executable()
 	if err != nil {
 		return 0, false, "", err
 	}
-	ctx, cancel := context.WithTimeout(context.Background(), 120*time.Second)
+	ctx, cancel := context.WithTimeout(context.Background(), 180*time.Second)
 	defer cancel()
-	cmd := exec.CommandContext(ctx, self, "check", "--no-cache", "--no-lock")
+	cmd := exec.CommandContext(ctx, self, append([]string{"--no-cache"}, args...)...)
 	var env []string
 	for _, kv := range os.Environ() {
 		if !strings.HasPrefix(kv, "RESTIC_") {
 			env = append(env, kv)
 		}
 	}
-	cmd.Env = append(env, "RESTIC_REPOSITORY="+e.repo, "RESTIC_PASSWORD="+vPassword)
+	cmd.Env = append(append(env, "RESTIC_REPOSITORY="+sc.e.repo, "RESTIC_PASSWORD="+vPassword), extraEnv...)
+	cmd.Dir = cwd
 	var ob, eb bytes.Buffer
 	cmd.Stdout, cmd.Stderr = &ob, &eb
-	runErr := cmd.Run()
+	_ = cmd.Run()
 	exit = cmd.ProcessState.ExitCode()
 	out := ob.String() + eb.String()
-	panicked = strings.Contains(out, "panic:") || strings.Contains(out, "goroutine ")
+	panicked = strings.Contains(out, "panic:") || strings.Contains(out, "goroutine ") || strings.Contains(out, "fatal error:")
 	for _, l := range strings.Split(out, "\n") {
-		if strings.Contains(l, "panic:") || strings.Contains(l, "Fatal:") || strings.Contains(l, "error for tree") || strings.Contains(l, "failed to decode") {
+		if strings.Contains(l, "panic:") || strings.Contains(l, "Fatal:") || strings.Contains(l, "fatal error:") {
 			detail += strings.TrimSpace(l) + " | "
 		}
 	}
-	if len(detail) > 300 {
-		detail = detail[:300]
+	if len(detail) > 240 {
+		detail = detail[:240]
 	}
-	_ = runErr
-	_ = os.RemoveAll(e.base)
 	return exit, panicked, detail, nil
+}
+
+func (sc *c42Scratch) probe(p c42Probe) (int, bool, string, error) {
+	args := make([]string, len(p.args))
+	for i, a := range p.args {
+		a = strings.ReplaceAll(a, "@B", sc.snapB)
+		a = strings.ReplaceAll(a, "@G", sc.snapG)
+		a = strings.ReplaceAll(a, "@T", sc.target)
+		a = strings.ReplaceAll(a, "@R2", sc.repo2)
+		args[i] = a
+	}
+	cwd := sc.e.base
+	if p.cwd == "@SRC" {
+		cwd = sc.src
+	}
+	return sc.restic(cwd, []string{"RESTIC_FROM_PASSWORD=" + vPassword}, args...)
+}
+
+// c42Probes: read-only commands first, then the ones that write.
+var c42Probes = []c42Probe{
+	{name: "check", args: []string{"check", "--no-lock"}, mustFail: true},
+	{name: "ls", args: []string{"ls", "@B"}},
+	{name: "ls-recursive", args: []string{"ls", "-l", "--recursive", "@B"}},
+	{name: "ls-subdir", args: []string{"ls", "@B:/d"}},
+	{name: "find", args: []string{"find", "-s", "@B", "c"}},
+	{name: "dump-file-before", args: []string{"dump", "@B", "/d/a"}},
+	{name: "dump-file-after", args: []string{"dump", "@B", "/d/c"}, mustFail: true},
+	{name: "dump-tar-dir", args: []string{"dump", "-a", "tar", "@B", "/d"}, mustFail: true},
+	{name: "dump-zip-root", args: []string{"dump", "-a", "zip", "@B", "/"}, mustFail: true},
+	{name: "restore", args: []string{"restore", "@B", "--target", "@T"}, mustFail: true},
+	{name: "restore-include", args: []string{"restore", "@B", "--target", "@T", "--include", "/d/c"}},
+	{name: "restore-verify", args: []string{"restore", "@G", "--target", "@T", "--verify"}},
+	{name: "diff-bad-good", args: []string{"diff", "@B", "@G"}},
+	{name: "diff-good-bad", args: []string{"diff", "--metadata", "@G", "@B"}},
+	{name: "stats", args: []string{"stats", "@B"}, mustFail: true},
+	{name: "stats-raw", args: []string{"stats", "--mode", "raw-data", "@B"}, mustFail: true},
+	{name: "stats-blobs-per-file", args: []string{"stats", "--mode", "blobs-per-file", "@B"}, mustFail: true},
+	{name: "stats-files-by-contents", args: []string{"stats", "--mode", "files-by-contents", "@B"}, mustFail: true},
+	{name: "snapshots", args: []string{"snapshots"}},
+	{name: "backup-parent", args: []string{"backup", "--parent", "@B", "--force=false", "d", "f"}, cwd: "@SRC"},
+	{name: "init-repo2", args: []string{"init", "--repo", "@R2", "--from-repo", "@R2x"}},
+	{name: "copy", args: []string{"copy", "--repo", "@R2", "--from-repo", "@REPO", "@B"}, mustFail: true},
+	{name: "rewrite", args: []string{"rewrite", "--exclude", "/d/a", "@B"}},
+	{name: "rewrite-noop", args: []string{"rewrite", "--exclude", "/nothing", "@B"}},
+	{name: "recover", args: []string{"recover"}},
+	{name: "prune", args: []string{"prune"}, mustFail: true},
+	{name: "repair-snapshots-dry", args: []string{"repair", "snapshots", "--dry-run"}},
+	{name: "repair-snapshots", args: []string{"repair", "snapshots", "--forget"}},
+	{name: "check-after-repair", args: []string{"check", "--no-lock"}},
+}
+
+func c42RunProbes(c *vctx, variant string, emit func(kind string, mustFail bool, exit int, panicked bool, detail string)) error {
+	sc, err := c42Craft(c, variant)
+	if err != nil {
+		return err
+	}
+	defer os.RemoveAll(sc.e.base)
+	for _, p := range c42Probes {
+		if p.name == "init-repo2" {
+			// second repository for copy (own chunker parameters are fine)
+			ex, _, d, err := sc.restic(sc.e.base, []string{"RESTIC_REPOSITORY=" + sc.repo2}, "init")
+			if err != nil || ex != 0 {
+				return fmt.Errorf("init repo2: exit %d %s %v", ex, d, err)
+			}
+			continue
+		}
+		if p.name == "copy" {
+			ex, pn, d, err := sc.restic(sc.e.base, []string{"RESTIC_REPOSITORY=" + sc.repo2, "RESTIC_FROM_REPOSITORY=" + sc.e.repo, "RESTIC_FROM_PASSWORD=" + vPassword}, "copy", sc.snapB)
+			if err != nil {
+				return err
+			}
+			emit(p.name, p.mustFail, ex, pn, d)
+			continue
+		}
+		ex, pn, d, err := sc.probe(p)
+		if err != nil {
+			return err
+		}
+		emit(p.name, p.mustFail, ex, pn, d)
+	}
+	return nil
 }
 
 func engineC42(c *vctx) error {
@@ -580,24 +712,34 @@ func engineC42(c *vctx) error {
 		emit("corpus-huge", ts, []uint64{1}, nil, nil, r0, false)
 		emit("corpus-huge", ts, []uint64{1, 5}, nil, nil, r0, true)
 	}
-	// the checker's process callback on an unreadable reachable tree, through the real CLI
-	for _, v := range []struct{ variant, kind string }{{"ok", ""}, {"start", "check-cli-undecodable-tree"}, {"mid", "check-cli-broken-tree"}} {
-		exit, panicked, detail, err := c42CheckCLI(c, v.variant)
-		if err != nil {
-			return fmt.Errorf("check cli scenario %s: %w", v.variant, err)
-		}
-		c.Info("check-cli-"+v.variant, fmt.Sprintf("exit=%d panic=%v %s", exit, panicked, detail))
-		if v.variant == "ok" {
-			if exit != 0 {
-				return fmt.Errorf("check cli control scenario: healthy crafted snapshot gives exit %d: %s", exit, detail)
+	// consumers of the node iterator on an unreadable reachable tree, through the real CLI
+	for _, variant := range []string{"ok", "start", "mid"} {
+		v := variant
+		err := c42RunProbes(c, v, func(name string, mustFail bool, exit int, panicked bool, detail string) {
+			c.Info("cli-"+v+"-"+name, fmt.Sprintf("exit=%d panic=%v %s", exit, panicked, detail))
+			c.Hist("cli-probe " + v)
+			if v == "ok" {
+				if panicked {
+					c.Info("cli-control-problem-"+name, "panic on a healthy repository")
+				}
+				return
 			}
-			continue
+			handled := !panicked && exit != 2 && (exit != 0 || !mustFail)
+			kind := "cli-broken-tree-" + name
+			if v == "start" {
+				kind = "cli-undecodable-tree-" + name
+			}
+			if name == "check" && v == "mid" {
+				kind = "check-cli-broken-tree"
+			}
+			// model: tree 2 is reachable and unreadable -> the client must see an error, not a crash
+			term := fmt.Sprintf("C42m.mk [(1%%N, Some [mkn TDir (Some 2%%N) []; mkn TFile None []]); (2%%N, None)] [1%%N] [] [] %s [] [] [] %s",
+				coqBool(handled), coqZ(int64(exit)))
+			c.Case(kind, false, 2, term, fmt.Sprintf("restic %s on a snapshot whose tree blob is broken at %q (must fail: %v) -> exit=%d panic=%v %s", name, v, mustFail, exit, panicked, detail))
+		})
+		if err != nil {
+			return fmt.Errorf("cli scenario %s: %w", v, err)
 		}
-		reported := exit == 1 && !panicked
-		// model: tree 2 is reachable and unreadable -> the traversal's client must see an error
-		term := fmt.Sprintf("C42m.mk [(1%%N, Some [mkn TDir (Some 2%%N) []; mkn TFile None []]); (2%%N, None)] [1%%N] [] [] %s [] [] [] %s",
-			coqBool(reported), coqZ(int64(exit)))
-		c.Case(v.kind, false, 2, term, fmt.Sprintf("restic check on a snapshot with a tree blob broken at %q -> exit=%d panic=%v %s", v.variant, exit, panicked, detail))
 	}
 	rounds := c.n(260, 4000)
 	for r := 0; r < rounds; r++ {
